@@ -198,7 +198,10 @@ pub fn worker_loop(mut f: impl FnMut(usize) -> Value) -> ! {
     loop {
         line.clear();
         match stdin.lock().read_line(&mut line) {
-            Ok(0) | Err(_) => std::process::exit(0),
+            Ok(0) | Err(_) => {
+                crate::fsutil::cleanup_all();
+                std::process::exit(0)
+            }
             Ok(_) => {}
         }
         let Ok(idx) = line.trim().parse::<usize>() else {
